@@ -89,6 +89,12 @@ class FakeContext:
         if not self.handshake_ok:
             sock.peer.on_tls_failed(sock)
             raise ssl.SSLError("handshake failure (simulated)")
+        if sock.inq:
+            # cleartext still unread in the socket when the handshake starts: a TLS layer
+            # would take it for a (broken) handshake record
+            del sock.inq[:]
+            sock.peer.on_tls_failed(sock)
+            raise ssl.SSLError("handshake failure: unexpected cleartext (simulated)")
         sock.channel = "tls"
         self.wrapped.append(sock)
         sock.peer.on_tls(sock)
